@@ -40,6 +40,8 @@ type c07Setup struct {
 	idpSignerKind string // "rsa" | "opaque-rsa" | "ecdsa" (with idpSigner)
 	idsShape      string // where the answered request id stands among the outstanding ones
 	initiated     bool
+	idpKey        int64  // idp.Key's key pair (0 = key 1)
+	idpEntity     string // the IdP's entity ID / metadata URL ("" = the usual one)
 	spInterm      bool   // sp.Intermediates set
 	xmlEntry      bool   // SP entry point ParseXMLResponse instead of ParseResponse
 	certWS        string // how certificate texts are laid out in both metadata documents ("" = single line)
@@ -106,13 +108,29 @@ func spSigner(name string) crypto.Signer {
 	return fix.RSAKey(name)
 }
 
+// pipeWorld: values that stay alive across pipeline runs of one history
+type pipeWorld struct {
+	idp *saml.IdentityProvider // long-lived IdP, re-configured in place
+	sp  *saml.ServiceProvider  // long-lived SP; its IDPMetadata is replaced when the IdP's metadata is refreshed
+}
+
 func runPipeline(setup c07Setup, sess mSession, now time.Time, relay string) (res c07Result) {
+	return runPipelineOn(nil, setup, sess, now, relay)
+}
+
+func runPipelineOn(pw *pipeWorld, setup c07Setup, sess mSession, now time.Time, relay string) (res c07Result) {
 	defer func() {
 		if p := recover(); p != nil {
 			res.stage, res.detail = "panic", fmt.Sprint(p)
 		}
 	}()
 	cfg := mCfg{SSOURL: "https://idp.example.com/saml/sso", Entity: "https://idp.example.com/saml/metadata", Delay: 90 * time.Second, Skew: 180 * time.Second, Key: 1, Method: setup.idpMethod}
+	if setup.idpKey != 0 {
+		cfg.Key = setup.idpKey
+	}
+	if setup.idpEntity != "" {
+		cfg.Entity, cfg.SSOURL = setup.idpEntity, strings.TrimSuffix(setup.idpEntity, "/metadata")+"/sso"
+	}
 	if setup.idpSigner {
 		cfg.Signer, cfg.SignerKind = iptr(2), setup.idpSignerKind
 		if setup.idpSignerKind == "ecdsa" {
@@ -121,7 +139,13 @@ func runPipeline(setup c07Setup, sess mSession, now time.Time, relay string) (re
 		}
 	}
 	withGlobals(cfg, now, func() {
-		idp := newIDP(cfg, nil, sess.toSAML())
+		var idp *saml.IdentityProvider
+		if pw != nil && pw.idp != nil {
+			idp = pw.idp
+			configureIDP(idp, cfg, sess.toSAML())
+		} else {
+			idp = newIDP(cfg, nil, sess.toSAML())
+		}
 		idpMD, err := xmlReparse(idp.Metadata())
 		if err != nil {
 			res.stage, res.detail = "idp-metadata", err.Error()
@@ -134,13 +158,16 @@ func runPipeline(setup c07Setup, sess mSession, now time.Time, relay string) (re
 				}
 			}
 		}
-		sp := &saml.ServiceProvider{
-			Key:               spSigner(setup.spKey),
-			MetadataURL:       mustURL("https://sp.example.com/saml2/metadata"),
-			AcsURL:            mustURL("https://sp.example.com/saml2/acs"),
-			IDPMetadata:       idpMD,
-			AllowIDPInitiated: setup.initiated,
+		sp := &saml.ServiceProvider{}
+		if pw != nil && pw.sp != nil {
+			sp = pw.sp // the long-lived value: fields assigned in place, IDPMetadata refreshed
 		}
+		sp.Key = spSigner(setup.spKey)
+		sp.MetadataURL = mustURL("https://sp.example.com/saml2/metadata")
+		sp.AcsURL = mustURL("https://sp.example.com/saml2/acs")
+		sp.IDPMetadata = idpMD
+		sp.AllowIDPInitiated = setup.initiated
+		sp.EntityID, sp.Certificate, sp.Intermediates, sp.SignatureMethod = "", nil, nil, ""
 		if setup.entityIDSet {
 			sp.EntityID = "spn:example-sp"
 		}
@@ -389,7 +416,74 @@ func spMetaToModel(ed *saml.EntityDescriptor) *mMeta {
 	return m
 }
 
+// c07Histories: one IdentityProvider value whose credentials are rotated in place (the SP is configured from
+// its CURRENT metadata each time), and one ServiceProvider value kept alive across a refresh of the IdP's
+// metadata and copied (struct copy) for another IdP; every step must be accepted with the session's identity.
+func c07Histories(c *Ctx, g *Group) {
+	now := c05Nows[0]
+	rounds := 3
+	if c.Thorough() {
+		rounds = 30
+	}
+	step := func(pw *pipeWorld, setup c07Setup, hist, what string) {
+		sess, cls := hostileSession(c.Rng)
+		if cdataEndInAttribute(sess) {
+			sess, cls = mSession{Create: now, NameID: "alice", UserName: "alice", Groups: []string{"staff"}}, "plain"
+		}
+		res := runPipelineOn(pw, setup, sess, now, "relay")
+		key := setup.key()
+		key["string_class"], key["class"], key["history"], key["step"] = cls, "history", hist, what
+		c.Count("history/" + hist)
+		var specOK *bool
+		if res.stage == "panic" {
+			specOK = Bptr(false)
+		}
+		c.Add(g, &Case{
+			Key:   key,
+			Input: map[string]any{"history": hist, "step": what, "setup": key, "session": sess},
+			Obs:   map[string]any{"accepted": res.accepted, "stopped_at": res.stage, "detail": res.detail, "name_id": res.nameID, "attributes": res.attrs},
+			Term: fmt.Sprintf("{| c7_sess := %s; c7_accepted := %s; c7_nameid := %s; c7_attrs := %s |}",
+				sess.term(), emitBool(res.accepted), emitStr(res.nameID), attrsTerm(res.attrs)),
+			ImplSpecOK: specOK,
+		})
+	}
+	for k := 0; k < rounds; k++ {
+		base := c07Setup{spKey: "rsa_b", cert: k%2 == 0, binding: pick(c.Rng, []string{"redirect", "post"}), idsShape: "single"}
+		// (1) the IdP's signing credentials rotated in place after a first signed response
+		pw := &pipeWorld{idp: newIDP(seqBaseCfg(), nil, c05Session)}
+		s := base
+		step(pw, s, "idp-credentials-rotated", "first response (Key 1, default method)")
+		s.idpMethod = rsaSHA256
+		step(pw, s, "idp-credentials-rotated", "SignatureMethod changed in place")
+		s.idpKey = 3
+		step(pw, s, "idp-credentials-rotated", "Key and Certificate replaced in place (key 3)")
+		s.idpSigner, s.idpSignerKind = true, "opaque-rsa"
+		step(pw, s, "idp-credentials-rotated", "Signer (key 2) set in place")
+		s.idpSignerKind = "ecdsa"
+		step(pw, s, "idp-credentials-rotated", "ECDSA Signer set in place")
+		s.idpSigner, s.idpSignerKind, s.idpKey, s.idpMethod = false, "", 1, ""
+		step(pw, s, "idp-credentials-rotated", "back to Key 1")
+		// (2) one ServiceProvider value alive across a refresh of the IdP's metadata, and a struct copy for another IdP
+		pw = &pipeWorld{sp: &saml.ServiceProvider{}}
+		s = base
+		step(pw, s, "sp-kept-alive", "first response from the IdP (key 1)")
+		s.idpKey = 3
+		step(pw, s, "sp-kept-alive", "IdP rotated to key 3, sp.IDPMetadata refreshed")
+		copySP := *pw.sp
+		pw2 := &pipeWorld{sp: &copySP}
+		s2 := base
+		s2.idpEntity, s2.idpKey = "https://idp2.example.net/saml/metadata", 2
+		step(pw2, s2, "sp-kept-alive", "struct copy of the SP configured for another IdP (key 2)")
+		step(pw, s, "sp-kept-alive", "the original SP again")
+		s.idpSigner, s.idpSignerKind = true, "ecdsa"
+		step(pw, s, "sp-kept-alive", "IdP rotated to an ECDSA signer, metadata refreshed")
+		s.idpSigner, s.idpSignerKind, s.idpKey = false, "", 1
+		step(pw, s, "sp-kept-alive", "IdP back to key 1, metadata refreshed")
+	}
+}
+
 func c07Pipeline(c *Ctx) {
+	defer c07Histories(c, c.Group("hist", []string{"IdPModel"}, "c07case", "check_c07"))
 	var gs []*Group
 	for i := 0; i < 4; i++ {
 		gs = append(gs, c.Group(fmt.Sprintf("pipe%d", i), []string{"IdPModel"}, "c07case", "check_c07"))
